@@ -52,6 +52,9 @@ MUTANTS = [
     ('operator_dict.py', "mv2 = mv2 if isinstance(mv2, MultiVector) else MultiVector.fromkeysvalues(self.algebra, (0,), [mv2])",
      "mv2 = mv2 if isinstance(mv2, MultiVector) else MultiVector.fromkeysvalues(self.algebra, (1,), [mv2])", 'dispatch', 'a number as operand 2'),
     ('operator_dict.py', "if not (mv1.algebra is mv2.algebra or mv1.algebra == mv2.algebra):", "if False:", 'dispatch', 'operands whose algebras differ'),
+    ('operator_dict.py', "keysvalues = tuple((k, simpv) for k, v in zip(keys_out, values_out) if (simpv := self.algebra.simp_func(v)))",
+     "keysvalues = tuple((k, v) for k, v in zip(keys_out, [self.algebra.simp_func(v) for v in values_out if not (isinstance(v, (int, float)) and v == 0)]) if v)",
+     'dispatch', 'a plain numeric zero is dropped and every surviving value keeps its own key'),
     ('operator_dict.py', "keys_in = tuple(mv.keys() for mv in mvs)", "keys_in = (mv.keys() for mv in mvs)", 'dispatch', 'the cache key compares equal on the next call'),
     ('operator_dict.py', "keys_in = tuple(mv.keys() for mv in mvs)", "keys_in = tuple(mv.keys() for mv in reversed(mvs))", 'dispatch', "operands' key tuples, in operand order"),
     ('operator_dict.py', "values_in = tuple(mv.values() for mv in mvs)", "values_in = tuple(mv.values() for mv in reversed(mvs))", 'dispatch', 'values are passed in operand order'),
